@@ -7,6 +7,11 @@ Routes on every run:
   oracle         real ManifestLoader  vs  the installed `ninja` (-t commands -s / -t query / -n), directly,
                  and vs the Lean reference semantics (which is itself validated against `ninja`:
                  "spec validation"; a spec/ninja disagreement is never a violation, it is counted)
+  parser stream  (`correspond_parser`) real Parser with a tracing ParseActions (harness mode c17parse: every callback,
+                 every token payload, every error message)  ==  Lean parser model driving the Lean lexer model
+                 (driver mode c17parse), verbatim, on generated valid manifests, the malformed stream and a byte-level
+                 mutation stream; python oracle on the real trace (begin/end discipline, tokens inside the buffer);
+                 and the pure-Lean pipeline bytes -> lexer -> parser -> loader (driver mode c17full) == real ManifestLoader
 """
 import json, os, re, shlex, shutil, subprocess, threading
 from .. import common as C
@@ -399,6 +404,118 @@ def shwords(s):
         return None
 
 
+# ------------------------------------------------------------------------------------------------
+# parser stream: byte-level mutations of valid manifests, trace oracle
+# ------------------------------------------------------------------------------------------------
+INSERTS = [b"build ", b"rule ", b"pool ", b"default ", b"include ", b"subninja ", b"build", b"rule", b"|", b"||", b" | ", b" || ", b":", b": ",
+           b"=", b" = ", b"\n", b"\r\n", b"\r", b"\n\n", b"  ", b" ", b"\t", b"\n  ", b"$\n", b"$\r\n", b" $\n  ", b"$", b"$ ", b"$:", b"#", b" # c",
+           b"\x00", b"\xff", b"\x80", b"\x0b", b"\x0c"]
+
+
+def mutate_bytes(rng, data):
+    """1-3 byte-level edits: truncate, flip, delete a range, insert keywords / punctuation / newlines / indentation / $-newline"""
+    kinds = []
+    for _ in range(1 + rng.below(3)):
+        k = rng.below(10)
+        n = len(data)
+        if k == 0:
+            data = data[:rng.below(n + 1)]
+            kinds.append("truncate")
+        elif k == 1 and n:
+            i = rng.below(n)
+            data = data[:i] + bytes([rng.choice([0, 9, 10, 13, 32, 35, 36, 58, 61, 124, 255, rng.below(256)])]) + data[i + 1:]
+            kinds.append("flip")
+        elif k == 2 and n:
+            i = rng.below(n)
+            data = data[:i] + data[i + 1 + rng.below(6):]
+            kinds.append("delete")
+        elif k == 3 and n:
+            # join two lines / split one: replace a newline by a blank or a blank by a newline
+            idx = [j for j, c in enumerate(data) if c in (10, 32)]
+            if idx:
+                i = rng.choice(idx)
+                data = data[:i] + (b" " if data[i] == 10 else b"\n") + data[i + 1:]
+            kinds.append("newline-swap")
+        else:
+            i = rng.below(n + 1)
+            # prefer structurally interesting places: line starts and token boundaries
+            if n and rng.chance(1, 2):
+                idx = [j + 1 for j, c in enumerate(data) if c in (10, 32, 58)]
+                if idx:
+                    i = rng.choice(idx)
+            data = data[:i] + rng.choice(INSERTS) + data[i:]
+            kinds.append("insert")
+    return data, kinds
+
+
+ITEM_NAMES = {"bm": "actOnBeginManifest", "em": "actOnEndManifest", "x": "error", "b": "actOnBindingDecl", "d": "actOnDefaultDecl",
+              "i": "actOnIncludeDecl(include)", "s": "actOnIncludeDecl(subninja)", "B": "actOnBeginBuildDecl", "P": "actOnBeginPoolDecl",
+              "R": "actOnBeginRuleDecl", "pb": "actOnBuildBindingDecl", "pp": "actOnPoolBindingDecl", "pr": "actOnRuleBindingDecl",
+              "eb": "actOnEndBuildDecl", "ep": "actOnEndPoolDecl", "er": "actOnEndRuleDecl"}
+
+
+def trace_tokens(fields):
+    for f in fields:
+        if f in (".", "") or "/" not in f:
+            continue
+        for t in f.split(","):
+            yield t.split("/")
+
+
+def check_trace(line, size):
+    """The property itself on the REAL parser's callback trace (independent of the Lean model): returns (problem or None,
+    item tags, error messages).  Exactly one BeginManifest, first; one EndManifest, last; every Begin*Decl closed by the End of
+    the same kind before anything but its bindings / errors; every token inside the buffer; split indices within the inputs."""
+    if not line.startswith("ok"):
+        return "no trace: " + line[:200], [], []
+    items = line.split(" ")[1:]
+    tags, msgs = [], []
+    open_kind = None
+    for n, it in enumerate(items):
+        f = it.split(":")
+        tag = f[0]
+        tags.append(tag)
+        if tag not in ITEM_NAMES:
+            return "unknown item " + it[:60], tags, msgs
+        if (tag == "bm") != (n == 0):
+            return "actOnBeginManifest is not exactly the first callback", tags, msgs
+        if (tag == "em") != (n == len(items) - 1):
+            return "actOnEndManifest is not exactly the last callback", tags, msgs
+        for t in trace_tokens(f[1:] if tag != "x" else f[2:]):
+            if len(t) != 5 or int(t[1]) < 0 or int(t[1]) + int(t[2]) > size:
+                return "token outside the buffer: " + "/".join(t), tags, msgs
+        if tag == "x":
+            msgs.append(C.unhex(f[1]).decode("latin1"))
+        elif tag in ("B", "P", "R"):
+            if open_kind is not None:
+                return "Begin inside an open declaration", tags, msgs
+            open_kind = {"B": "b", "P": "p", "R": "r"}[tag]
+            if tag == "B":
+                nins = 0 if f[5] == "." else len(f[5].split(","))
+                if int(f[2]) + int(f[3]) > nins or f[4] == ".":
+                    return "build declaration with split indices beyond its inputs or without outputs", tags, msgs
+        elif tag in ("pb", "pp", "pr"):
+            if open_kind != tag[1]:
+                return "binding callback outside its declaration", tags, msgs
+        elif tag in ("eb", "ep", "er"):
+            if open_kind != tag[1]:
+                return "End without matching Begin", tags, msgs
+            open_kind = None
+        elif tag in ("b", "d", "i", "s", "em") and open_kind is not None:
+            return "top-level callback inside an open declaration", tags, msgs
+    if not items or open_kind is not None:
+        return "unterminated declaration / empty trace", tags, msgs
+    return None, tags, msgs
+
+
+# theorems of lean/LLBuild/Props/C17Parse.lean (the parser between the two halves); audited by c17.py / c19.py
+PARSER_C17_THEOREMS = ["LLBuild.NinjaParser." + t for t in [
+    "C17_parser_build_shape", "C17_parser_rule_shape", "C17_parser_pool_shape", "C17_parser_binding_shape",
+    "C17_parser_binding_shape_empty", "C17_parser_include_shape", "C17_parser_default_shape", "C17_keywords_only_at_statement_start", "C17_pipeline_agrees"]]
+PARSER_C19_THEOREMS = ["LLBuild.NinjaParser." + t for t in [
+    "C19_ninja_parser_total", "C19_ninja_parser_no_oob", "C19_ninja_parser_terminates", "C19_ninja_parser_reports_via_callbacks"]]
+
+
 class Check(PropertyCheck):
     prop = "C17LOAD"
     module = "LLBuild.Props.C17Load"
@@ -494,6 +611,111 @@ class Check(PropertyCheck):
             return {"edges": res}
         finally:
             shutil.rmtree(d, ignore_errors=True)
+
+    # ---------------------------------------------------------------------------------------
+    def correspond_parser(self, ctx, res, cases, lines, real, exe):
+        """stream `parser`: real Parser callbacks == Lean parser model (over the Lean lexer model), and the pure-Lean pipeline
+        (mode c17full) == real ManifestLoader.  Draws from its own generator stream, so the other streams are unchanged."""
+        from . import c11
+        rng = C.Rng(ctx.seed, "C17/parser")
+        replay = bool(getattr(ctx, "replay_path", None))
+        inputs = []                                   # (bytes, stream)
+        seen = set()
+
+        def add(data, stream):
+            if (data, stream) not in seen:
+                seen.add((data, stream))
+                inputs.append((data, stream))
+        valid_texts = []
+        for c in cases:
+            for _, t in c["files"]:
+                add(t, "valid" if c["kind"] == "valid" else "malformed")
+                if c["kind"] == "valid":
+                    valid_texts.append(t)
+        if not replay:
+            for t in [b"", b"\n", b" ", b"build", b"build ", b"build a", b"build a:", b"build a: r", b"build a: r |", b"build a: r ||\n", b"build a: r | b || c | d\n",
+                      b"rule", b"rule r", b"rule r x\n  command = c\nbuild a: r\n", b"pool\n", b"pool p p\n", b"default\n", b"default a b\n", b"default a |\n",
+                      b"include\n", b"include a b\n", b"subninja a\nsubninja", b"a\n", b"a =", b"a = b", b"a =\n", b"a = \n", b"a b = c\n", b"=\n", b":\n", b"|\n",
+                      b"rule r\n  command = c\n\n  description = d\n \n\t\nbuild a: r\n  x\n  y = \n  = z\n  build = 1\n  rule\n", b"build a: build\n", b"build rule: rule rule\n",
+                      b"rule build\n  pool = default\n", b"pool rule\n  depth = 1\n", b"default build rule\n", b"include subninja\n", b"build a$\n b: r$\n c\n", b"a = b $\n  c\n",
+                      b"# c\nrule r # x\n  command = c # y\n# z\nbuild a: r # q\n", b"rule r\r\n  command = c\r\nbuild a: r\r\n", b"rule r\r  command = c\rbuild a: r\r",
+                      b"  indented = 1\nx = 2\n", b"build a: r\n  x = 1\ny = 2\n  z = 3\n", b"build : r\n  x = 1\n  y = 2\nz = 3\n", b"build a r\n  x = 1\n\n  y = 2\n",
+                      b"\xff\xfe = \x80\n", b"build \xff: r\xff \x80\n", b"rule r\x00\n", b"x = $", b"build a: r $", b"$\nbuild a: r\n", b"x $\n = 1\n"]:
+                add(t, "directed")
+            nmut = 30000 if ctx.thorough else 2500
+            for i in range(nmut):
+                base = rng.choice(valid_texts) if valid_texts else b"rule r\n  command = c\nbuild a: r b\n"
+                m, kinds = mutate_bytes(rng, base)
+                add(m, "mutated")
+            for i in range(3000 if ctx.thorough else 300):
+                # token soup: statement fragments in random order
+                parts = [rng.choice([b"build", b"rule", b"pool", b"default", b"include", b"subninja", b"a", b"b.c", b"$x", b"${y}", b":", b"|", b"||", b"=", b"\n", b"\n", b"\n  ",
+                                     b" ", b" ", b"  ", b"$\n", b"#", b"$ ", b"$:", b"\r\n", b"\xc3\xa9"]) for _ in range(1 + rng.below(24))]
+                add((b" " if rng.chance(1, 2) else b"").join(parts), "soup")
+        plines = [hx(d) for d, _ in inputs]
+        hout, restarts = c11.run_attributed([exe, "c17parse"], plines, watchdog=600)
+        mrc, mout, merr = self.run_model("c17parse", plines)
+        model_ok = mrc == 0 and len(mout) == len(plines)
+        if ctx.model_ok and not model_ok:
+            res.mismatches.append({"stream": "parser", "input": "model driver (mode c17parse) exit %d, %d of %d lines" % (mrc, len(mout), len(plines)), "model": merr[-400:]})
+        by_stream, item_counts, msg_manifests, msg_counts = {}, {}, {}, {}
+        n_err_manifests = 0
+        compared_items = 0
+        nontrivial = set()
+        for i, ((data, stream), h) in enumerate(zip(inputs, hout)):
+            by_stream[stream] = by_stream.get(stream, 0) + 1
+            finp = {"files": [["build.ninja", data.decode("latin1")]], "files_hex": [[b"build.ninja".hex(), data.hex()]], "kind": "malformed",
+                    "edges_hex": [], "sources_hex": [], "hex": hx(data)}
+            if h.startswith(("ABORT", "HANG")):
+                res.oracle_failures.append({"what": "the real Ninja Parser did not return on a %d-byte manifest (%s): parsing must terminate, stay inside the buffer and report "
+                                                    "problems through the error callback" % (len(data), h[:300]),
+                                            "kind": "crash", "oracle": "parser-crash", "signal": h[:120], "recursive_rule_variable": False, "input": finp})
+                continue
+            prob, tags, msgs = check_trace(h, len(data))
+            if prob is not None:
+                res.oracle_failures.append({"what": "the real Ninja Parser's callback sequence breaks its protocol: " + prob, "kind": "parser-protocol",
+                                            "oracle": "parser-protocol", "input": finp, "impl": h[:600]})
+            for t in tags:
+                item_counts[ITEM_NAMES.get(t, t)] = item_counts.get(ITEM_NAMES.get(t, t), 0) + 1
+            compared_items += len(tags)
+            for m in msgs:
+                msg_counts[m] = msg_counts.get(m, 0) + 1
+            for m in set(msgs):
+                msg_manifests[m] = msg_manifests.get(m, 0) + 1
+            if msgs:
+                n_err_manifests += 1
+            nontrivial.add((tuple(sorted(set(tags))), tuple(sorted(set(msgs)))))
+            if model_ok and mout[i] != h and len([m for m in res.mismatches if m.get("stream") == "parser"]) < 10:
+                a, b = mout[i].split(" "), h.split(" ")
+                k = next((j for j, (x, y) in enumerate(zip(a, b)) if x != y), min(len(a), len(b)))
+                res.mismatches.append({"stream": "parser", "input": finp, "model": "item %d: %s" % (k, " ".join(a[k:k + 3])[:300]),
+                                       "impl": "item %d: %s" % (k, " ".join(b[k:k + 3])[:300])})
+                if os.environ.get("C17LOAD_DEBUG"):
+                    C.log("PARSER MISMATCH", repr(data), "\nMODEL", mout[i], "\nREAL ", h)
+        # pure-Lean pipeline (bytes -> lexer -> parser -> loader) against the real loader, on the case stream
+        frc, full, ferr = self.run_model("c17full", lines)
+        full_ok = frc == 0 and len(full) == len(lines)
+        if ctx.model_ok and not full_ok:
+            res.mismatches.append({"stream": "parser-pipeline", "input": "model driver (mode c17full) exit %d, %d of %d lines" % (frc, len(full), len(lines)), "model": ferr[-400:]})
+        npipe = 0
+        if full_ok:
+            for c, r, m in zip(cases, real, full):
+                if r.startswith("CRASH") or r == "no-manifest":
+                    continue
+                npipe += 1
+                if m != r and len([x for x in res.mismatches if x.get("stream") == "parser-pipeline"]) < 10:
+                    mf, rf = m.split(" "), r.split(" ")
+                    diff = [(a, b) for a, b in zip(mf, rf) if a != b][:4]
+                    res.mismatches.append({"stream": "parser-pipeline", "input": {"files": [[n.decode("latin1"), t.decode("latin1")] for n, t in c["files"]],
+                                                                                  "files_hex": [[n.hex(), t.hex()] for n, t in c["files"]], "kind": c["kind"]},
+                                           "model": repr(diff)[:300] if diff else m[-200:], "impl": r[:100] if not diff else ""})
+        res.evaluations += len(inputs) + npipe
+        res.distinct_nontrivial += len(nontrivial)
+        return {"manifests": len(inputs), "by_stream": by_stream, "callbacks_compared": compared_items,
+                "callbacks_by_kind": dict(sorted(item_counts.items())), "manifests_with_parse_errors": n_err_manifests,
+                "error_callbacks_by_message": dict(sorted(msg_counts.items())), "manifests_by_error_message": dict(sorted(msg_manifests.items())),
+                "distinct_callback_and_error_sets": len(nontrivial), "harness_restarts": restarts,
+                "pipeline_manifests_compared_with_real_loader": npipe}
 
     # ---------------------------------------------------------------------------------------
     def correspond(self, ctx, res):
@@ -648,7 +870,8 @@ class Check(PropertyCheck):
         res.oracle_failures[:] = first + rest
         res.evaluations += len(cases)
         res.distinct_nontrivial += spec_valid
-        res.distribution = {"cases": len(cases), "valid_stream": sum(1 for c in cases if c["kind"] == "valid"),
+        parser_dist = self.correspond_parser(ctx, res, cases, lines, real, exe)
+        res.distribution = {"parser": parser_dist, "cases": len(cases), "valid_stream": sum(1 for c in cases if c["kind"] == "valid"),
                             "malformed_stream": sum(1 for c in cases if c["kind"] != "valid"),
                             "in_spec_fragment": spec_valid, "features": feat, "loader_error_kinds": errkinds,
                             "ninja_compared_manifests": nninja, "ninja_compared_edges": spec_checked_edges, "crashes": crashes}
@@ -659,7 +882,11 @@ class Check(PropertyCheck):
                     "bindings, nested and braced references, $-escapes, continuations, include/subninja trees with rules at different levels and "
                     "shadowing, paths with spaces, quotes, '$', ':') inside the carve-outs, 4 directed manifests (F15, F21, F22, scoping), and a "
                     "malformed stream (fixed list incl. recursive rule variables + line mutations). Non-trivial = the reference semantics gives the "
-                    "manifest a meaning (in the fragment of C17_eval_agrees).")
+                    "manifest a meaning (in the fragment of C17_eval_agrees).  Stream `parser`: every file of those manifests, hand-written statement "
+                    "fragments, byte-level mutations of the valid files (truncate, flip, delete, newline<->blank, insert keywords / | / || / : / = / "
+                    "newlines / indentation / $-newline / # / NUL / high bytes, preferably at line starts and token boundaries) and token soup, each through "
+                    "the real Parser with a tracing ParseActions on an exact-size heap buffer and through the Lean parser model (all callbacks, token "
+                    "payloads and error messages compared verbatim); non-trivial there = distinct (set of callback kinds, set of error messages).")
         if cases:
             k = min(len(cases) - 1, 7)
             res.samples.append({"manifest": cases[k]["files"][0][1].decode("latin1")[:600], "real": real[k][:400]})
